@@ -1118,6 +1118,8 @@ struct RtHarness : Harness
         c.n = (uint64_t)g.range(1, 60);
         if (g.chance(0.25))
             c.n = (uint64_t)g.range(1, 6);
+        if (g.chance(0.03))
+            c.n = 0; // an acquisition of no frames at all
         static const int64_t delays[] = { 0, 0, 0, 200, 2000, 10000 };
         c.delay_us = delays[g.below(6)];
         static const int64_t exps[] = { 0, 0, 20, 200, 2000, 5000 };
@@ -1128,6 +1130,8 @@ struct RtHarness : Harness
             c.cs.gap_at = g.range(0, (int64_t)c.n);
         if (g.chance(0.08))
             c.cs.zero_at = g.range(0, (int64_t)c.n);
+        if (!allow_avg && g.chance(0.1))
+            c.avg = 1; // a window of one frame is "no averaging"
         if (allow_avg) {
             c.avg = (int)g.range(2, 8);
             while (c.type == SampleType_f32)
